@@ -1139,6 +1139,9 @@ vfh_warmup(void)
 	if (e != NULL) {
 		aio_trace = atoi(e);
 	}
+	if (VF_TSAN) {
+		aio_trace = 0; // the diagnostic ring is not synchronised
+	}
 }
 
 static bool
